@@ -109,9 +109,29 @@ def load_units(sources, force_inst=(), workdir=None, allow_errors=False):
     return prog
 
 
+def _renumber(node, parent, off):
+    """variable / parameter / function ids are assigned per translation unit: make them unique across the program, so that an
+    analysis that follows a call into a function from another unit never confuses two variables (types keep their own ids)"""
+    if isinstance(node, dict):
+        if isinstance(node.get('id'), int) and (node.get('k') == 'var' or parent in ('params', 'vars', 'cv', 'fn', 'globals')):
+            node['id'] += off
+        for k, v in node.items():
+            if k != '_types' and isinstance(v, (dict, list)):
+                _renumber(v, k, off)
+    elif isinstance(node, list):
+        for x in node:
+            _renumber(x, parent, off)
+
+
 def _merge(prog, src, data):
     ui = len(prog.units)
     prog.units.append(src)
+    if ui:
+        off = ui * 10000000
+        for f in data['functions']:
+            _renumber(f, 'fn', off)
+        for g in data['globals']:
+            _renumber(g, 'globals', off)
     types = {t['id']: t for t in data['types']}
     seen = getattr(prog, '_seen', None)
     if seen is None:
